@@ -97,8 +97,11 @@ def run_spec(ctx, rep, spec, model, only=None):
         got = [float(x) for x in np.atleast_1d(np.asarray(got, dtype=float))]
         # the centre is only representable up to the rounding of its coordinates: an error of a few ulp(p) is an error of
         # ulp(p)/dx cells in the index the interpolation is asked for, times the variation of the data between cells (< 2**9)
-        slack = 2 ** 9 * 16 * 2.2e-16 * max(abs(pt[d]) / (spec["dx0"][d] / 2 ** lv) for d in range(3))
-        if len(got) != len(want) or any(abs(a - b) > 1e-9 * max(1.0, abs(b)) + slack for a, b in zip(got, want)):
+        # tolerance relative to the magnitude of each field (its values are small integers times the field's scale)
+        rel = 1e-9 + 8 * 16 * 2.2e-16 * max(abs(pt[d]) / (spec["dx0"][d] / 2 ** lv) for d in range(3))
+        fs = spec["data"].get("field_scale")
+        scale = [64.0 * (fs[k % len(fs)] if fs else 1.0) for k in idx]
+        if len(got) != len(want) or any(abs(a - b) > rel * s for a, b, s in zip(got, want, scale)):
             rep.fail(f"query returned {got}, the stored cell value is {want}", case, obs={"got": got, "want": want})
             continue
         if model:
@@ -136,6 +139,9 @@ def run(ctx, rep, model=True):
         spec = plotgen.random_spec(ctx.rng, ndims=3, nlev=[2, 1, 3][i % 3], nf=[2, 3][i % 2], data="smallint", B=4,
                                    nblk=[[2, 1, 1], [1, 2, 1], [1, 1, 2]][i % 3], origin=(i % 4 != 3), aniso=(i % 2 == 0),
                                    refine_p=0.4, scale=[None, "far", None, "tiny", None][i % 5], exact=(i % 3 != 1))
+        if i % 3 == 2:
+            spec["data"]["field_scale"] = [1e5, 1e-12, 3e-7]        # e.g. pressure next to radical mass fractions
+            rep.count("fields-of-very-different-magnitudes")
         run_spec(ctx, rep, spec, model)
         if len(rep.violations) >= 10:
             return
